@@ -301,7 +301,7 @@ def shard(ctx):
             if forced is None and rng.random() < 0.35 and len(tb.metavar_ids(conc_e)) >= 1:
                 # the premise is spelled as a partial notation node: only some metavariables are bound by the node itself
                 from frozendict import frozendict
-                base_e = rp.rand_term(rng, rng.randint(1, 2), meta=True, notation=0.2, mvs=(0, 1, 2), substs=False, constrained=0.0)
+                base_e = rp.rand_term(rng, rng.randint(1, 2), meta=True, notation=0.2, mvs=(0, 1, 2), substs=False, constrained=rng.choice((0.0, 0.0, 0.5)))
                 bids = sorted(tb.metavar_ids(base_e))
                 if len(bids) >= 2:
                     keys_n = [bids[0]] if rng.random() < 0.7 else bids[:-1]
